@@ -107,3 +107,15 @@ claim("C09", "proof",
       "frame lemma (each region reads and writes only its own pixels).",
       "Coq proof (induction on fuel / view splitting, frame lemmas) + differential split correspondence + brute-force oracle",
       "DESIGN.md section 6, C09")
+
+claim("C15", "proof",
+      "Coq theorems about the evaluators' reused scratch state (rows = total functions, stale = arbitrary; any number / "
+      "derivative type; any kernel table): batched value + derivative answers at a position are functions of the leaf rows "
+      "at that position only, hence equal after any two histories with equal leaf rows; FeatureEvaluator's array-wise run "
+      "returns the kernel on slot-0 values and the i-th feature (with a refutation of the code before the repair); setVar "
+      "= rebuild.  Oracle (the statement itself): after every prefix of generated histories of 13 query kinds the same query "
+      "on a freshly built evaluator must answer bit-identically; updateVars reports changes.",
+      "Trusted: Coq kernel; the tape well-formedness premise is the deck / push invariant tied in C01 / C05; the `filled` "
+      "high-water bookkeeping and the interval slots are covered by the oracle only; harness.",
+      "Coq proof (pointwise frame reasoning over tapes and histories) + fresh-vs-long-lived differential oracle",
+      "DESIGN.md section 6, C15")
